@@ -214,6 +214,29 @@ theorem C07_mini_write_frame_reachable (v4 : Bool) (ops : List Phys.GOp) :
       Phys.miniBytes p' root l2 = Phys.miniBytes (Phys.grun g0 ops).p root l2 :=
   Phys.mini_write_frame_reachable v4 ops
 
+/-- … every stream of at least 4096 bytes keeps its bytes as well (its sectors are none of the mini stream's:
+two heads of the FAT never reach the same sector), and what was written is read back -/
+theorem C07_mini_write_regular_frame_reachable (v4 : Bool) (ops : List Phys.GOp) :
+    let g0 : Phys.G := { p := Phys.create v4, L := fun _ => 0 }
+    Phys.WritesInRange g0 ops → Phys.MiniBounded g0 ops → (Phys.grun g0 ops).p.fat.size ≤ Raw.MAXREG + 1 →
+    ∀ e1 ∈ (Phys.grun g0 ops).p.starts, ∀ e2 ∈ (Phys.grun g0 ops).p.starts,
+    (Phys.grun g0 ops).L e1.1 < Phys.CUTOFF → 0 < (Phys.grun g0 ops).L e1.1 →
+    Phys.CUTOFF ≤ (Phys.grun g0 ops).L e2.1 → e2.2 ≠ Raw.END →
+    ∀ l1 l2, Phys.IsChain (Phys.grun g0 ops).p.miniFat e1.2 l1 → Phys.IsChain (Phys.grun g0 ops).p.fat e2.2 l2 →
+    ∀ (off : Nat) (bs : Phys.Bytes), off + bs.length ≤ l1.length * 64 →
+    ∃ p', Phys.miniChainWrite (bs.length + 2) (Phys.grun g0 ops).p l1 off bs = .ok (p', l1) ∧
+      Phys.chainBytes p' l2 = Phys.chainBytes (Phys.grun g0 ops).p l2 :=
+  Phys.mini_write_regular_frame_reachable v4 ops
+
+theorem C07_mini_write_read_reachable (v4 : Bool) (ops : List Phys.GOp) :
+    let g0 : Phys.G := { p := Phys.create v4, L := fun _ => 0 }
+    Phys.WritesInRange g0 ops → Phys.MiniBounded g0 ops → (Phys.grun g0 ops).p.fat.size ≤ Raw.MAXREG + 1 →
+    ∀ (a : Nat) (l : List Nat), Phys.IsChain (Phys.grun g0 ops).p.miniFat a l →
+    ∀ (off : Nat) (bs : Phys.Bytes), off + bs.length ≤ l.length * 64 →
+    ∃ p', Phys.miniChainWrite (bs.length + 2) (Phys.grun g0 ops).p l off bs = .ok (p', l) ∧
+      Phys.miniChainRead (bs.length + 2) p' l off bs.length [] = .ok bs :=
+  Phys.mini_write_read_reachable v4 ops
+
 /-- non-vacuity: a version-3 file whose mini stream is the one-sector chain [2] (eight mini sectors);
 the mini chain [5, 1, 6] of a 150-byte stream, 100 bytes written across two mini-sector boundaries
 at offset 40; the mini chain [0, 7] belongs to another stream.  The write and the read-back are
